@@ -1,8 +1,607 @@
-//! C07 — not implemented yet.
+//! C07 — numbers print as plain decimal text that denotes exactly their value.
+//!
+//! Implementation: `FeelNumber::{from_str, to_string, jsonify}` (feel-number/src/number.rs),
+//! `dec::{dec_from_string, dec_to_string}` (the bundled C decNumber), FEEL literals and
+//! `string(n)` through parse + evaluate.
+//! Model: `Dmn.Dec.{toSci, sciToPlain, plain, ofString, ofLiteral}` through the driver; the
+//! specification (`isPlain`, `plainValue`/`denotes`, `isJsonNumber`, read-back) is executed by
+//! the driver too — on the model's text when it equals the implementation's, and on the
+//! implementation's own text (`judge`) when the two differ.
 
-use crate::report::Report;
+use crate::c02::{ask_parallel, decode_text, feel_eval, parse_sci, DecV, D};
+use crate::model::Model;
+use crate::report::{Kind, Report};
+use crate::rng::Rng;
+use crate::sexp::Sexp;
+use crate::util::guarded;
 use crate::Cfg;
+use dmntk_common::Jsonify;
+use dmntk_feel::values::Value;
+use dmntk_feel::FeelNumber;
+use dmntk_feel_number::dec::{dec_from_string, dec_to_string};
+use serde_json::json;
+use std::str::FromStr;
 
-pub fn run(_cfg: &Cfg) -> Report {
-  Report::new("C07", "not implemented")
+pub const SIG_F1: &str = "Display of a negative number in E- form puts the sign inside the digits";
+pub const SIG_ZERO: &str = "Display of a zero with positive exponent prints several zeros (not a JSON number)";
+
+fn random_coeff(rng: &mut Rng, len: usize, trailing_zeros: bool) -> String {
+  // `len` digits, first non-zero; last digit zero or non-zero as requested
+  let mut s = String::with_capacity(len);
+  for i in 0..len {
+    let d = if i == 0 {
+      1 + rng.below(9)
+    } else if i == len - 1 {
+      if trailing_zeros {
+        0
+      } else {
+        1 + rng.below(9)
+      }
+    } else {
+      // runs of zeros and nines are interesting for the digit handling
+      match rng.below(8) {
+        0 => 0,
+        1 => 9,
+        _ => rng.below(10),
+      }
+    };
+    s.push(char::from(b'0' + d as u8));
+  }
+  if trailing_zeros && len > 2 && rng.chance(1, 3) {
+    // several trailing zeros
+    let k = 1 + rng.below((len - 1) as u64) as usize;
+    let keep = len - k;
+    s.truncate(keep);
+    for _ in 0..k {
+      s.push('0');
+    }
+  }
+  s
+}
+
+struct Verdicts {
+  is_plain: bool,
+  value_ok: bool,
+  json_ok: bool,
+  readback: String,
+}
+
+fn verdicts_of(items: &[Sexp]) -> Option<Verdicts> {
+  if items.len() != 4 {
+    return None;
+  }
+  Some(Verdicts {
+    is_plain: items[0].as_atom()? == "true",
+    value_ok: items[1].as_atom()? == "true",
+    json_ok: items[2].as_atom()? == "true",
+    readback: items[3].as_atom()?.to_string(),
+  })
+}
+
+/// The law checks on a text the implementation printed for `d`.
+fn apply_verdicts(rep: &mut Report, family: &str, d: &D, input: &str, text: &str, v: &Verdicts) {
+  let short = |t: &str| if t.len() > 120 { format!("{}…({} chars)", &t[..120], t.len()) } else { t.to_string() };
+  let sci_e_minus = (d.coeff.len() as i64 + d.exp as i64) < -5;
+  if !v.is_plain {
+    let sig = if d.neg && sci_e_minus { SIG_F1 } else { "Display text is not of the form -?digits(.digits)?" };
+    rep.disagree(Kind::ImplVsSpec, family, sig, input, &short(text), "-?[0-9]+(\\.[0-9]+)?");
+    return;
+  }
+  if !v.value_ok {
+    rep.disagree(Kind::ImplVsSpec, family, "Display text does not denote the number's value", input, &short(text), "text denoting exactly the value");
+  }
+  if !v.json_ok {
+    let sig = if d.coeff == "0" && d.exp > 0 { SIG_ZERO } else { "jsonify text is not a JSON number" };
+    rep.disagree(Kind::ImplVsSpec, family, sig, input, &short(text), "a JSON number");
+  }
+  if v.readback != "eq" {
+    rep.disagree(Kind::ImplVsSpec, family, "reading the printed text back gives a different number", input, &short(text), "an equal number");
+  }
+}
+
+pub fn run(cfg: &Cfg) -> Report {
+  let mut rep = Report::new(
+    "C07",
+    "grid exponent -6176..6111 x coefficient length 1..34 x sign x with/without trailing zeros (random coefficient per cell; quick: a stratified sample, every exponent at least once), zeros of both signs over the exponent range, results of + - * / on grid members, FromStr on syntactic variants, FEEL literals of 1..40 significant digits and string(n). Non-trivial: every case except a one-digit coefficient with exponent 0; distinct by request line.",
+  );
+  let thorough = cfg.tier == "thorough";
+  let mut rng = Rng::new(cfg.seed);
+  let mut model = Model::start(&cfg.driver);
+
+  // ------------------------------------------------------------------ 1. the grid
+  let mut cells: Vec<D> = vec![];
+  // corpus / edges first
+  for (neg, c, e) in [
+    (true, "15", -8),
+    (true, "1", -7),
+    (false, "15", -8),
+    (false, "0", 3),
+    (true, "0", 2),
+    (false, "0", 0),
+    (true, "0", 0),
+    (false, "0", -6),
+    (false, "0", -7),
+    (false, "0", -6176),
+    (false, "0", 6111),
+    (false, "1", -6176),
+    (true, "1", -6176),
+    (false, "9999999999999999999999999999999999", 6111),
+    (true, "9999999999999999999999999999999999", 6111),
+    (false, "9999999999999999999999999999999999", -6176),
+    (false, "1000000000000000000000000000000000", 6111),
+    (false, "1", 6111),
+    (false, "1", -6),
+    (false, "1", -7),
+    (true, "1", -6),
+    (false, "123", -2),
+    (false, "123", -3),
+    (false, "123", -4),
+    (false, "123", -8),
+    (false, "123", -9),
+    (true, "123", -9),
+    (false, "123", 1),
+    (true, "123", 1),
+    (false, "10", -1),
+    (false, "100", -2),
+  ] {
+    cells.push(D { neg, coeff: c.to_string(), exp: e });
+  }
+  if thorough {
+    // one random coefficient per grid cell
+    for e in -6176..=6111 {
+      for len in 1..=34usize {
+        for neg in [false, true] {
+          for tz in [false, true] {
+            if tz && len == 1 {
+              // a one-digit coefficient with a trailing zero is the zero coefficient
+              cells.push(D { neg, coeff: "0".into(), exp: e });
+            } else {
+              cells.push(D { neg, coeff: random_coeff(&mut rng, len, tz), exp: e });
+            }
+          }
+        }
+      }
+    }
+  } else {
+    // stratified: every exponent once, lengths / signs / zeros cycling with a random phase,
+    // plus a dense band around the notation switch (adjusted exponent -7..-5) and exponent 0
+    let phase = rng.below(34) as usize;
+    let mut i = 0usize;
+    for e in -6176..=6111 {
+      let len = 1 + (i + phase) % 34;
+      let neg = rng.chance(1, 2);
+      let tz = rng.chance(1, 2);
+      if tz && len == 1 {
+        cells.push(D { neg, coeff: "0".into(), exp: e });
+      } else {
+        cells.push(D { neg, coeff: random_coeff(&mut rng, len, tz), exp: e });
+      }
+      i += 1;
+    }
+    for e in -60..=40 {
+      for len in 1..=34usize {
+        for neg in [false, true] {
+          let tz = rng.chance(1, 2) && len > 1;
+          cells.push(D { neg, coeff: random_coeff(&mut rng, len, tz), exp: e });
+        }
+      }
+    }
+    for e in [-6176, -6175, -6143, -3000, -100, 100, 3000, 6077, 6078, 6110, 6111] {
+      for len in 1..=34usize {
+        let neg = rng.chance(1, 2);
+        let tz = rng.chance(1, 2) && len > 1;
+        cells.push(D { neg, coeff: random_coeff(&mut rng, len, tz), exp: e });
+      }
+    }
+  }
+  rep.extra.insert("grid_cells".into(), json!(cells.len()));
+
+  // arithmetic results on grid members (reduced by the operators, so `{:?}` shows the triple)
+  let n_arith = if thorough { 200_000 } else { 3_000 };
+  let mut arith: Vec<(String, D)> = vec![];
+  for _ in 0..n_arith {
+    let a = &cells[rng.below(cells.len() as u64) as usize];
+    let b = &cells[rng.below(cells.len() as u64) as usize];
+    let op = *rng.pick(&["+", "-", "*", "/"]);
+    let (sa, sb) = (a.to_sci_input(), b.to_sci_input());
+    let r = guarded(|| {
+      let x = FeelNumber::from_str(&sa).ok()?;
+      let y = FeelNumber::from_str(&sb).ok()?;
+      let z = match op {
+        "+" => x + y,
+        "-" => x - y,
+        "*" => x * y,
+        _ => x / y,
+      };
+      match parse_sci(&format!("{:?}", z)) {
+        Some(DecV::Fin(d)) => Some(d),
+        _ => None,
+      }
+    });
+    if let Ok(Some(d)) = r {
+      arith.push((format!("{} {} {}", sa, op, sb), d));
+    }
+  }
+
+  let process = |rep: &mut Report, model: &mut Model, items: &[(String, D)], family: &str| {
+    let chunk = 200_000;
+    let mut start = 0;
+    while start < items.len() {
+      let end = (start + chunk).min(items.len());
+      let reqs: Vec<String> = items[start..end].iter().map(|(_, d)| format!("(c07 num {} {} {})", d.neg, d.coeff, d.exp)).collect();
+      let (answers, asked) = ask_parallel(&cfg.driver, &reqs);
+      model.requests += asked;
+      for (((origin, d), req), ans) in items[start..end].iter().zip(reqs.iter()).zip(answers.iter()) {
+        let nontrivial = !(d.coeff.len() == 1 && d.exp == 0);
+        rep.case(req, nontrivial);
+        let adj = d.coeff.len() as i64 + d.exp as i64 - 1;
+        rep.hit(&format!(
+          "{}:{}",
+          family,
+          if d.exp > 0 {
+            "E+"
+          } else if adj < -6 {
+            if d.neg {
+              "E- negative"
+            } else {
+              "E- positive"
+            }
+          } else if d.exp == 0 {
+            "integer"
+          } else if d.coeff.len() as i64 + d.exp as i64 > 0 {
+            "ddd.ddd"
+          } else {
+            "0.00ddd"
+          }
+        ));
+        let input = if origin.is_empty() { d.to_sci_input() } else { format!("{} = {}", origin, d.to_sci_input()) };
+        // ---- implementation
+        let sci_in = d.to_sci_input();
+        let imp = guarded(|| {
+          let q = dec_from_string(&sci_in);
+          let sci = dec_to_string(&q);
+          let n = FeelNumber::from_str(&sci_in).map_err(|e| e.to_string());
+          match n {
+            Ok(n) => {
+              let text = n.to_string();
+              let js = n.jsonify();
+              let back = match FeelNumber::from_str(&text) {
+                Ok(m) => {
+                  if m == n && format!("{:?}", m) == format!("{:?}", n) {
+                    "eq"
+                  } else {
+                    "ne"
+                  }
+                }
+                Err(_) => "err",
+              };
+              (sci, Ok((text, js, back.to_string())))
+            }
+            Err(e) => (sci, Err(e)),
+          }
+        });
+        let (isci, itext, ijson, iback) = match imp {
+          Ok((sci, Ok((t, j, b)))) => (sci, t, j, b),
+          Ok((sci, Err(e))) => {
+            rep.disagree(Kind::ImplVsSpec, family, "from_str rejects a finite decimal128", &input, &format!("{} / {}", sci, e), "Ok");
+            continue;
+          }
+          Err(p) => {
+            rep.disagree(Kind::ImplVsSpec, family, "Display panics", &input, &format!("panic: {}", p), "text");
+            continue;
+          }
+        };
+        // ---- model
+        let parsed = Sexp::parse(ans);
+        let items_ = match parsed.as_ref().and_then(|s| s.as_list()) {
+          Some(l) if l.len() == 7 && l[0].as_atom() == Some("num") => l.to_vec(),
+          _ => {
+            rep.disagree(Kind::ImplVsModel, family, "driver-error", req, &itext, ans);
+            continue;
+          }
+        };
+        let msci = decode_text(&items_[1]).unwrap_or_default();
+        let mtext = decode_text(&items_[2]);
+        if isci != msci {
+          rep.disagree(Kind::ImplVsModel, family, "decQuadToString differs from toSci", &input, &isci, &msci);
+        }
+        if ijson != itext {
+          rep.disagree(Kind::ImplVsSpec, family, "jsonify differs from Display", &input, &ijson, &itext);
+        }
+        let same_text = mtext.as_deref() == Some(itext.as_str());
+        let v = if same_text {
+          verdicts_of(&items_[3..7])
+        } else {
+          rep.disagree(Kind::ImplVsModel, family, "Display differs from sciToPlain∘toSci", &input, &itext, mtext.as_deref().unwrap_or("panic"));
+          // the specification applied to the implementation's own text
+          let jr = model.ask(&format!("(c07 judge {} {} {} {})", d.neg, d.coeff, d.exp, Sexp::str(&itext)));
+          Sexp::parse(&jr).and_then(|s| s.as_list().map(|l| l.to_vec())).and_then(|l| if l.len() == 5 { verdicts_of(&l[1..5]) } else { None })
+        };
+        match v {
+          Some(mut v) => {
+            // the read-back verdict comes from the implementation's own from_str and equality
+            if v.readback != iback && v.is_plain {
+              rep.disagree(Kind::ImplVsModel, family, "from_str(text) read-back differs from ofString", &input, &iback, &v.readback);
+            }
+            v.readback = iback.clone();
+            apply_verdicts(rep, family, d, &input, &itext, &v);
+          }
+          None => rep.disagree(Kind::ImplVsModel, family, "driver-error", req, &itext, ans),
+        }
+        if rep.samples.len() < 6 && nontrivial && itext.len() < 60 && (d.exp < -3 || d.exp > 0) {
+          rep.sample(json!({"number": d.to_sci_input(), "decQuadToString": isci, "Display": itext, "model": ans}));
+        }
+      }
+      start = end;
+    }
+  };
+
+  let grid_items: Vec<(String, D)> = cells.iter().map(|d| (String::new(), d.clone())).collect();
+  process(&mut rep, &mut model, &grid_items, "grid");
+  process(&mut rep, &mut model, &arith, "arith");
+
+  // ------------------------------------------------------------------ 2. FromStr on syntactic variants
+  let mut texts: Vec<String> = vec![
+    "12.", ".5", "5.", "1e5", "1E5", "+1.5E-3", "00012.3400", "-0", "+0", "-0.0", "0E+3", "0E-7", "1E+6144", "1E+6145", "9.999999999999999999999999999999999E+6144",
+    "9.9999999999999999999999999999999995E+6144", "1E-6176", "1E-6177", "5E-6177", "5.0000001E-6177", "1E-7000", "1E+7000", "0E+7000", "0E-7000", "abc", "", ".", "-", "+", "1.2.3", "1E", "1E+", "E5", "1 ",
+    " 1", "Infinity", "-Infinity", "inf", "NaN", "sNaN", "1_000", "1,5", "12345678901234567890123456789012345", "1234567890123456789012345678901234.5", "1234567890123456789012345678901233.5",
+    "0.00000000000000000000000000000000000000001", "1E+99999999999", "1E-99999999999", "0E+99999999999",
+  ]
+  .iter()
+  .map(|s| s.to_string())
+  .collect();
+  let n_texts = if thorough { 50_000 } else { 3_000 };
+  for _ in 0..n_texts {
+    let mut t = String::new();
+    if rng.chance(1, 3) {
+      t.push(*rng.pick(&['-', '+']));
+    }
+    let wide = rng.chance(1, 5);
+    let ilen = rng.below(if wide { 40 } else { 8 }) as usize;
+    for _ in 0..ilen {
+      t.push(char::from(b'0' + rng.below(10) as u8));
+    }
+    if rng.chance(1, 2) {
+      t.push('.');
+      let wide = rng.chance(1, 5);
+      let flen = rng.below(if wide { 40 } else { 8 }) as usize;
+      for _ in 0..flen {
+        t.push(char::from(b'0' + rng.below(10) as u8));
+      }
+    }
+    if rng.chance(1, 2) {
+      t.push(*rng.pick(&['E', 'e']));
+      if rng.chance(2, 3) {
+        t.push(*rng.pick(&['-', '+']));
+      }
+      let e = match rng.below(4) {
+        0 => rng.below(10),
+        1 => rng.below(100),
+        2 => 6100 + rng.below(120),
+        _ => rng.below(7000),
+      };
+      t.push_str(&e.to_string());
+    }
+    if rng.chance(1, 40) {
+      t.push(*rng.pick(&['x', ' ', '.', 'E', '-']));
+    }
+    texts.push(t);
+  }
+  {
+    let reqs: Vec<String> = texts.iter().map(|t| format!("(c07 parse {})", Sexp::str(t))).collect();
+    let answers = model.ask_batch(&reqs);
+    for ((t, req), ans) in texts.iter().zip(reqs.iter()).zip(answers.iter()) {
+      rep.case(req, true);
+      if t.contains('\0') {
+        continue;
+      }
+      let imp = guarded(|| {
+        let q = dec_from_string(t);
+        let sci = dec_to_string(&q);
+        let n = FeelNumber::from_str(t);
+        (sci, n.map(|n| n.to_string()).map_err(|_| ()))
+      });
+      let (isci, itext) = match imp {
+        Ok(x) => x,
+        Err(p) => {
+          rep.disagree(Kind::ImplVsSpec, "from_str", "from_str panics", t, &p, "Ok or Err");
+          continue;
+        }
+      };
+      let ival = parse_sci(&isci);
+      let parsed = Sexp::parse(ans);
+      let l = match parsed.as_ref().and_then(|s| s.as_list()) {
+        Some(l) if l.len() == 3 && l[0].as_atom() == Some("parse") => l.to_vec(),
+        _ => {
+          rep.disagree(Kind::ImplVsModel, "from_str", "driver-error", req, &isci, ans);
+          continue;
+        }
+      };
+      let mval = DecV::from_sexp(&l[1]);
+      rep.hit(&format!(
+        "from_str:{}",
+        match &ival {
+          Some(DecV::Fin(_)) => "finite",
+          Some(DecV::Inf(_)) => "infinite",
+          Some(DecV::NaN) => "nan",
+          None => "unparsed",
+        }
+      ));
+      if ival != mval {
+        rep.disagree(Kind::ImplVsModel, "from_str", "decQuadFromString differs from ofString", t, &isci, &l[1].to_string());
+        continue;
+      }
+      let finite = matches!(ival, Some(DecV::Fin(_)));
+      if finite != itext.is_ok() {
+        rep.disagree(Kind::ImplVsModel, "from_str", "from_str Ok/Err differs from the finiteness of ofString", t, &format!("{:?}", itext), &l[1].to_string());
+      }
+      if let Ok(it) = itext {
+        let mt = decode_text(&l[2]);
+        if mt.as_deref() != Some(it.as_str()) {
+          rep.disagree(Kind::ImplVsModel, "from_str", "Display differs from sciToPlain∘toSci", t, &it, mt.as_deref().unwrap_or("panic"));
+        }
+      }
+    }
+  }
+
+  // ------------------------------------------------------------------ 3. FEEL literals and string(n)
+  let n_lit = if thorough { 50_000 } else { 3_000 };
+  let mut lits: Vec<(String, String, bool)> = vec![
+    ("12".into(), "".into(), false),
+    ("0".into(), "5".into(), false),
+    ("0".into(), "00000015".into(), true),
+    ("0".into(), "0000001".into(), true),
+    ("0".into(), "0000001".into(), false),
+    ("1".into(), "50".into(), false),
+    ("0".into(), "".into(), false),
+    ("0".into(), "".into(), true),
+    ("0".into(), "000".into(), false),
+    ("1234567890123456789012345678901234".into(), "".into(), false),
+    ("12345678901234567890123456789012345".into(), "".into(), false),
+    ("0".into(), "1234567890123456789012345678901234".into(), false),
+    ("0".into(), "0000000001234567890123456789012345678901234".into(), true),
+  ];
+  for _ in 0..n_lit {
+    let total = 1 + rng.below(40) as usize;
+    let blen = rng.below(total as u64 + 1) as usize;
+    let alen = total - blen;
+    let mut b = String::new();
+    for i in 0..blen.max(1) {
+      let d = if i == 0 && blen > 1 { 1 + rng.below(9) } else if blen == 0 { 0 } else { rng.below(10) };
+      b.push(char::from(b'0' + d as u8));
+    }
+    let mut a = String::new();
+    let lead_zeros = if rng.chance(1, 4) { rng.below(12) as usize } else { 0 };
+    for _ in 0..lead_zeros {
+      a.push('0');
+    }
+    for _ in 0..alen {
+      a.push(char::from(b'0' + rng.below(10) as u8));
+    }
+    lits.push((b, a, rng.chance(1, 3)));
+  }
+  {
+    let reqs: Vec<String> = lits.iter().map(|(b, a, _)| format!("(c07 literal {} {})", Sexp::str(b), Sexp::str(a))).collect();
+    let answers = model.ask_batch(&reqs);
+    // second batch: the Display model of the value each literal (with its sign) denotes
+    let mut show_reqs: Vec<String> = vec![];
+    let mut show_idx: Vec<usize> = vec![];
+    let mut mvals: Vec<Option<D>> = vec![];
+    for (i, ans) in answers.iter().enumerate() {
+      let l = Sexp::parse(ans).and_then(|s| s.as_list().map(|l| l.to_vec())).unwrap_or_default();
+      let mv = if l.len() == 4 { DecV::from_sexp(&l[1]) } else { None };
+      let md = match mv {
+        Some(DecV::Fin(d)) => Some(d),
+        _ => None,
+      };
+      if let Some(d) = &md {
+        let negated = lits[i].2;
+        // unary minus: `decQuadMinus` — flips the sign, a zero becomes +0
+        let neg = negated && d.coeff != "0";
+        show_reqs.push(format!("(c07 num {} {} {})", neg, d.coeff, d.exp));
+        show_idx.push(i);
+      }
+      mvals.push(md);
+    }
+    let show_answers = model.ask_batch(&show_reqs);
+    let mut show_by_idx: std::collections::HashMap<usize, String> = std::collections::HashMap::new();
+    for (i, a) in show_idx.iter().zip(show_answers.iter()) {
+      show_by_idx.insert(*i, a.clone());
+    }
+    for (i, ((b, a, negated), ans)) in lits.iter().zip(answers.iter()).enumerate() {
+      let lit = if a.is_empty() { b.clone() } else { format!("{}.{}", b, a) };
+      let expr = if *negated { format!("-{}", lit) } else { lit.clone() };
+      rep.case(&format!("literal {}", expr), true);
+      let l = Sexp::parse(ans).and_then(|s| s.as_list().map(|l| l.to_vec())).unwrap_or_default();
+      if l.len() != 4 {
+        rep.disagree(Kind::ImplVsModel, "literal", "driver-error", &expr, "", ans);
+        continue;
+      }
+      let exact = l[2].as_atom() == Some("true");
+      let sig34 = l[3].as_atom() == Some("true");
+      rep.hit(if sig34 { "literal:<=34 significant digits" } else { "literal:>34 significant digits" });
+      // implementation: the literal itself and string(literal)
+      let iv = guarded(|| feel_eval(&[], &expr));
+      let istr = guarded(|| feel_eval(&[], &format!("string({})", expr)));
+      let inum = match iv {
+        Ok(Ok(Value::Number(n))) => n,
+        other => {
+          let what = match other {
+            Ok(Ok(v)) => format!("{}", v),
+            Ok(Err(e)) => format!("error: {}", e),
+            Err(p) => format!("panic: {}", p),
+          };
+          if mvals[i].is_some() {
+            rep.disagree(Kind::ImplVsSpec, "literal", "a numeric literal does not evaluate to a number", &expr, &what, "a number");
+          }
+          continue;
+        }
+      };
+      let ired = parse_sci(&format!("{:?}", inum));
+      let itext = inum.to_string();
+      let md = match &mvals[i] {
+        Some(d) => d.clone(),
+        None => {
+          rep.disagree(Kind::ImplVsModel, "literal", "literal evaluates to a number but ofLiteral gives null", &expr, &itext, ans);
+          continue;
+        }
+      };
+      // literal_exact on the implementation's own answer: the printed text must denote the digits written
+      if sig34 {
+        if !exact {
+          rep.disagree(Kind::ImplVsModel, "literal", "model literal with <= 34 significant digits is not exact", &expr, &itext, ans);
+        }
+        // value of the literal: digits b++a as integer, scale |a|
+        let digits = format!("{}{}", b, a);
+        let digits = digits.trim_start_matches('0');
+        let coeff = if digits.is_empty() { "0" } else { digits };
+        let neg = *negated && coeff != "0";
+        let jr = model.ask(&format!("(c07 judge {} {} {} {})", neg, coeff, -(a.len() as i64), Sexp::str(&itext)));
+        let jl = Sexp::parse(&jr).and_then(|s| s.as_list().map(|l| l.to_vec())).unwrap_or_default();
+        if jl.len() == 5 {
+          if let Some(v) = verdicts_of(&jl[1..5]) {
+            let d = D { neg, coeff: coeff.to_string(), exp: -(a.len() as i32) };
+            if v.is_plain && !v.value_ok {
+              rep.disagree(Kind::ImplVsSpec, "literal", "a literal of <= 34 significant digits does not evaluate to the value it denotes", &expr, &itext, &lit);
+            } else if !v.is_plain {
+              apply_verdicts(&mut rep, "literal", &d, &expr, &itext, &v);
+            }
+          }
+        }
+      }
+      // tie: the evaluated literal (after unary minus) against the model, reduced triples and text
+      let neg = *negated && md.coeff != "0";
+      let mneg = D { neg, coeff: md.coeff.clone(), exp: md.exp };
+      if ired != Some(DecV::Fin(mneg.reduced())) {
+        rep.disagree(Kind::ImplVsModel, "literal", "literal value differs from ofLiteral", &expr, &format!("{:?}", inum), &format!("{:?}", mneg));
+      }
+      if let Some(sa) = show_by_idx.get(&i) {
+        let sl = Sexp::parse(sa).and_then(|s| s.as_list().map(|l| l.to_vec())).unwrap_or_default();
+        if sl.len() == 7 {
+          let mt = decode_text(&sl[2]);
+          if mt.as_deref() != Some(itext.as_str()) {
+            rep.disagree(Kind::ImplVsModel, "literal", "Display differs from sciToPlain∘toSci", &expr, &itext, mt.as_deref().unwrap_or("panic"));
+          }
+          match istr {
+            Ok(Ok(Value::String(s))) => {
+              if s != itext {
+                rep.disagree(Kind::ImplVsSpec, "literal", "string(n) differs from Display", &expr, &s, &itext);
+              }
+            }
+            other => {
+              let what = match other {
+                Ok(Ok(v)) => format!("{}", v),
+                Ok(Err(e)) => format!("error: {}", e),
+                Err(p) => format!("panic: {}", p),
+              };
+              rep.disagree(Kind::ImplVsSpec, "literal", "string(n) of a number is not a string", &expr, &what, &itext);
+            }
+          }
+        }
+      }
+    }
+  }
+  rep.exhaustive = thorough;
+  rep.model_requests = model.requests;
+  rep
 }
